@@ -5,10 +5,9 @@ From Flocq Require Import Core.Raux.
 From Inferno Require Import Base.Num Base.NumR C19.Encoders C19.EncodersLists C19.EncodersPoisson C19.EncodersProofs.
 Import ListNotations.
 Open Scope R_scope.
-Theorem hpe_online_zero_silent : forall (coded : bool) (shape : list nat) (c : config RN) (xs draws0 : list (T RN))
-    (draws : list (list (T RN))) (outs : list (list bool)) (raised : bool) 
-    (j : nat),
-  hpe_online RN coded shape c xs draws0 draws = Ok (outs, raised) ->
+Theorem hpe_online_zero_silent : forall (c : config RN) (xs draws0 : list (T RN)) (draws : list (list (T RN)))
+    (outs : list (list bool)) (j : nat),
+  hpe_online RN c xs draws0 draws = Ok outs ->
   length draws0 = length xs ->
   Forall nonneg draws0 ->
   Forall (Forall nonneg) draws ->
